@@ -159,7 +159,17 @@ def add_return_edges_to_callee(
     for block in _get_function_blocks(module, func_uuid):
         assert block.ir
 
-        if not cache.return_cache.any_return_edges(block):
+        # An earlier call in the same patch may already have replaced the
+        # block's proxy return edge by one that only exists in the patch's
+        # CFG so far.
+        returns_in_patch = any(
+            edge.label and edge.label.type == gtirb.Edge.Type.Return
+            for edge in cfg.out_edges(block)
+        )
+        if (
+            not cache.return_cache.any_return_edges(block)
+            and not returns_in_patch
+        ):
             continue
 
         for return_edge in cache.return_cache.block_proxy_return_edges(block):
